@@ -34,8 +34,11 @@ ASSUMPTIONS = [
     "nessai documents), for `ess` too",
     "the first iteration 'at or beyond the minimum' may count completed "
     "iterations from 0 or from 1: both are accepted",
-    "ratio, ratio_ns and Z_err are only checked for history/decision "
-    "consistency (their normalisation is an implementation choice)",
+    "ratio and ratio_ns are only checked for history/decision consistency "
+    "(their normalisation is an implementation choice); Z_err (alias "
+    "evidence_error) is compared with nessai's documented definition "
+    "exp(sigma[ln Z]), sigma[ln Z] = se(Z)/Z, recomputed with every term "
+    "scaled by the estimate (independent of the likelihood's magnitude)",
     "re-running / resuming a standard-sampler run that stopped at the "
     "iteration cap is reported under its own signature "
     "(rerun-of-capped-run:*, a recorded known finding)",
